@@ -296,6 +296,38 @@ Definition oracle_c05 (s : osel) (a b : list byte) (out : val) : N :=
   end.
 
 (* ---------------- C04 ---------------- *)
+(* helpers shared with C10: a base of exactly two separators (known finding D10, reported under C10), the root
+   that a bare non-disk prefix implies, and what a relative prefix-free b contributes to a join *)
+Definition KNOWN_C10_TWOSEP : N := 10.
+Definition c10_twosep (s : osel) (a : list byte) : bool :=
+  match s, a with OW, [x; y] => s_sep_any x && s_sep_any y | _, _ => false end.
+Definition implicit_root (ca : list wcomp) : list wcomp :=
+  match ca with [WPrefix _ k] => if is_disk k then [] else [WC Root] | _ => [] end.
+Definition tail_comps (ca cb : list wcomp) : list wcomp :=
+  match ca with
+  | [] => cb
+  | [WPrefix _ k] => if is_disk k then cb else match cb with WC Cur :: t => t | _ => cb end
+  | _ => match cb with WC Cur :: t => t | _ => cb end
+  end.
+(* containment, over the specification only: on success the components of the result begin with exactly the
+   components of the base; unless the base is verbatim (where the join also resolves "." and ".." of p, so
+   only "begins with" is demanded) they are the base, the root a bare non-disk prefix implies, and what p
+   adds.  Demanded for well-formed bases and non-empty p; the two-separator base is D10's input class. *)
+Definition c04_contains (s : osel) (base p buf : list byte) : bool :=
+  let ca := ospec s base in let cb := ospec s p in let cr := ospec s buf in
+  let averb := match s with OU => false | OW => sp_verbatim base end in
+  if owf s base && negb (match p with [] => true | _ => false end) then
+    wlist_prefix ca cr && (if averb then true else wlist_eqb cr (ca ++ implicit_root ca ++ tail_comps ca cb))
+  else true.
+(* D17: the base is the verbatim prefix whose name is exactly "UNC" (\\?\UNC, possibly followed by separators
+   only -- anything else after it makes it a verbatim UNC prefix): appending a separator and a name spells a
+   verbatim UNC prefix, so the prefix of the base is replaced and what was added disappears into it *)
+Definition KNOWN_C04_VERBATIM_UNC_NAME : N := 17.
+Definition c04_verbatim_unc_name (s : osel) (base : list byte) : bool :=
+  match s with
+  | OU => false
+  | OW => match sp_prefix base with Some (_, Verbatim x) => beq_list x [85; 78; 67] | _ => false end
+  end.
 Definition oracle_c04 (s : osel) (base p : list byte) (out : val) : N :=
   match vargs "c04" out with
   | Some [VL [snap]; jc; j] =>
@@ -307,7 +339,12 @@ Definition oracle_c04 (s : osel) (base p : list byte) (out : val) : N :=
               ob (val_eqb err (e_err e) && beq_list buf base && val_eqb jc (VC "err" [e_err e]))
           | None =>
               (* succeeds with exactly the unchecked join *)
-              ob (is_vn err && beq_list buf jb && val_eqb jc (VC "ok" [VB jb]))
+              if is_vn err && beq_list buf jb && val_eqb jc (VC "ok" [VB jb]) then
+                if c04_contains s base p buf then pass
+                else if c10_twosep s base then KNOWN_C10_TWOSEP
+                else if c04_verbatim_unc_name s base then KNOWN_C04_VERBATIM_UNC_NAME
+                else fail
+              else fail
           end
       | _, _ => fail
       end
@@ -411,10 +448,7 @@ Definition oracle_hist (s : osel) (i : list byte) (ops : list val) (out : val) :
 
 (* a base made of exactly two separators has no component but a root, yet anything joined onto it
    re-reads as a UNC / device prefix (\\ + b = \\b): excluded from the join statements, see DESIGN.md (D10) *)
-Definition KNOWN_C10_TWOSEP : N := 10.
 Definition KNOWN_C10_REMAINDER : N := 15.   (* D15: the remainder of strip_prefix starts with two separators and re-reads as a prefix *)
-Definition c10_twosep (s : osel) (a : list byte) : bool :=
-  match s, a with OW, [x; y] => s_sep_any x && s_sep_any y | _, _ => false end.
 (* ---------------- C10 ---------------- *)
 (* The implementation compares components by their bytes (helpers::iter_after).  At Unix bytes
    determine the component.  At Windows they do not: known finding D7 = the cases where the
@@ -430,14 +464,6 @@ Fixpoint wlist_prefix_by (eq : wcomp -> wcomp -> bool) (p l : list wcomp) : bool
 (* what b contributes when joined onto a (a without verbatim prefix, b relative and prefix-free):
    the separator inserted after a bare non-disk prefix shows as a root; a leading "." of b survives
    only if it still starts the path (a empty or a bare drive) *)
-Definition implicit_root (ca : list wcomp) : list wcomp :=
-  match ca with [WPrefix _ k] => if is_disk k then [] else [WC Root] | _ => [] end.
-Definition tail_comps (ca cb : list wcomp) : list wcomp :=
-  match ca with
-  | [] => cb
-  | [WPrefix _ k] => if is_disk k then cb else match cb with WC Cur :: t => t | _ => cb end
-  | _ => match cb with WC Cur :: t => t | _ => cb end
-  end.
 Definition oracle_c10 (s : osel) (a b : list byte) (out : val) : N :=
   match vargs "c10" out with
   | Some [rel; ec; j; rel2] =>
